@@ -27,7 +27,7 @@ import (
 func init() {
 	core.Register(&core.Monitor{
 		ID:            "C38",
-		Rule:          "PRNG key seeds and messages (lengths 0..200, the first cases pinned to lengths 0,1,2); per seed: the genuine (pk, proof, msg, output) tuple, all 640 single-bit flips of the proof, all 256 of the public key, sampled message bit flips + truncation/extension/other message, sampled output bit flips, s+kL re-encodings (k=1,2,7,15 while < 2^256), a foreign public key, a forged proof whose challenge agrees with the recomputed one in the first byte only, and forged proofs satisfying the verification equations under each of the 14 encodings of the 8 small-order points; a case is one verification call; distinct by (kind, key/message hash, position)",
+		Rule:          "PRNG key seeds and messages (lengths 0..200, the first cases pinned to lengths 0,1,2); per seed: the genuine (pk, proof, msg, output) tuple, all 640 single-bit flips of the proof, all 256 of the public key, sampled message bit flips + truncation/extension/other message, sampled output bit flips, s+kL re-encodings (k=1,2,7,15 while < 2^256), a foreign public key, a forged proof whose challenge agrees with the recomputed one in the first byte only, and forged proofs satisfying the verification equations under each of the 14 encodings of the 8 small-order points; then, on one goroutine, per tuple and entry point (VerifyAndHash, Verify) a history genuine -> tampered -> genuine ...: key / proof / message / output bit flips, small-order and random encodings, s+L, foreign key, each both as a fresh copy and written IN PLACE into the backing arrays the genuine call used, arguments compared for modification, buffers overwritten afterwards and the genuine + another statement re-verified from fresh copies; a case is one verification call; distinct by (kind, key/message hash, position, buffer discipline)",
 		MinNontrivial: 20000,
 		Assumptions: []string{
 			"filippo.io/edwards25519 group and scalar arithmetic is correct (used by the reference verifier and the forger)",
@@ -325,6 +325,8 @@ func run(c *core.Ctx) {
 			mustFail(c, t, "small-order-pk", "C38:VerifyAndHash:small-order-pk", enc.bytes, pr, t.msg, map[string]any{"encoding": enc.name, "forged_valid_equations": ok})
 		}
 	})
+	// single goroutine: genuine -> tampered histories, fresh-copy and in-place buffers
+	historyPhase(c)
 	if c.Counter("accepts") == 0 {
 		c.Inconclusive("no genuine proof was accepted: only one outcome observed")
 	}
